@@ -227,6 +227,43 @@ def main():
                             ctx.violation("complex_symmetry:" + nm.split("[")[0], "%s: %s by singular order %s: %s" % (cid, nm, orders, ["%.2e" % x for x in a]), cid)
                 for mm_, msg in rec.drain():
                     ctx.violation(mm_, "%s: %s" % (cid, msg), cid)
+        # ---- the same relations between two DIFFERENT grids (no singular part there: they hold to rounding), and the
+        # vanishing-real-part limit for such a coupling block
+        mA_, mB_ = pool[0][1], pool[1][1].copy("second_body")
+        mB_.V = mB_.V * 0.8 + np.array([[3.1 * mA_.diameter()], [0.3], [-0.4]])
+        gA_, gB_ = M.to_grid(mA_), M.to_grid(mB_)
+        incA = {} if mA_.is_closed_manifold() else {"include_boundary_dofs": True}
+        incB = {} if mB_.is_closed_manifold() else {"include_boundary_dofs": True}
+        pA, pB = api.function_space(gA_, "P", 1, **incA), api.function_space(gB_, "P", 1, **incB)
+        dA, dB = api.function_space(gA_, "DP", 0), api.function_space(gB_, "DP", 0)
+        Dm_ = mA_.diameter()
+        par = O.params(api, 5, 4)
+        for k in ([(1.1 - 0.4j) / Dm_] if ctx.quick else [(1.1 - 0.4j) / Dm_, 2.5 / Dm_, (0.3 + 0.9j) / Dm_]):
+            cid = "two_grids:%s|%s:kD=%s" % (pool[0][0], pool[1][0], complex(k * Dm_))
+            if not ctx.want(cid):
+                continue
+            with ctx.guard(cid, "two_grids"):
+                rel2 = {}
+                Wab = O.dense(O.boundary(api, "helmholtz", "hypersingular", pB, pA, pA, k, parameters=par))
+                Wba = O.dense(O.boundary(api, "helmholtz", "hypersingular", pA, pB, pB, k, parameters=par))
+                rel2["W_exchanged"] = O.frob(Wab - Wba.T) / O.frob(Wab)
+                Vab = O.dense(O.boundary(api, "helmholtz", "single_layer", dB, dA, dA, k, parameters=par))
+                Vba = O.dense(O.boundary(api, "helmholtz", "single_layer", dA, dB, dB, k, parameters=par))
+                rel2["V_exchanged"] = O.frob(Vab - Vba.T) / O.frob(Vab)
+                Kab = O.dense(O.boundary(api, "helmholtz", "double_layer", pB, dA, dA, k, parameters=par))
+                Kpba = O.dense(O.boundary(api, "helmholtz", "adjoint_double_layer", dA, pB, pB, k, parameters=par))
+                rel2["K'=K^T"] = O.frob(Kpba - Kab.T) / O.frob(Kab)
+                w_ = float(abs(np.imag(k))) if np.imag(k) != 0 else float(abs(k))
+                Wm = O.dense(O.boundary(api, "modified_helmholtz", "hypersingular", pB, pA, pA, w_, parameters=par))
+                We = O.dense(O.boundary(api, "helmholtz", "hypersingular", pB, pA, pA, 1e-7 + 1j * w_, parameters=par))
+                rel2["W_limit_to_modified"] = O.frob(We - Wm) / O.frob(Wm)
+                ctx.case(cid, {"grids": [pool[0][0], pool[1][0]], "k": complex(k), "relations": rel2})
+                for nm, v in rel2.items():
+                    lim_ = 1e-4 if nm == "W_limit_to_modified" else 1e-11
+                    if not np.isfinite(v) or v > lim_:
+                        ctx.violation("two_grids:" + nm, "%s: %s = %.3e" % (cid, nm, v), cid)
+            for mm_, msg in rec.drain():
+                ctx.violation(mm_, "%s: %s" % (cid, msg), cid)
         ctx.lap("symmetry")
     ctx.note("worst", worst)
     ctx.note("launch_recorder", rec.summary())
